@@ -13,7 +13,7 @@ def wbits_patch(ssize, dsize):
     while w < 25 and (1 << w) < ws: w += 1
     return w
 
-def build_full(rng, block_sizes, kinds=None, pad=None, block_max=None, pad_fn=None):
+def build_full(rng, block_sizes, kinds=None, pad=None, block_max=None, pad_fn=None, btypes=None):
     """block_sizes: uncompressed size of each block; kinds[i] in {0 stored, 1 lzx}.  returns (oab bytes, plaintext)"""
     plain = b""; body = b""
     for i, ds in enumerate(block_sizes):
@@ -22,18 +22,18 @@ def build_full(rng, block_sizes, kinds=None, pad=None, block_max=None, pad_fn=No
             d = bytes(rng.randrange(256) for _ in range(ds))
             body += struct.pack("<IIII", 0, ds, ds, rng.randrange(1 << 32)) + d; plain += d
         else:
-            s, d = lzxenc.encode(rng, wbits_full(ds), ds, delta=True)
+            s, d = lzxenc.encode(rng, wbits_full(ds), ds, delta=True, btypes=btypes)
             p = bytes(rng.randrange(256) for _ in range(pad_fn(i, len(s)) if pad_fn else (pad[i] if pad else rng.choice([0, 0, 1, 7]))))
             body += struct.pack("<IIII", 1, len(s) + len(p), ds, regcrc(d)) + s + p; plain += d
     bm = block_max if block_max is not None else max(list(block_sizes) + [16])
     return struct.pack("<IIII", 3, 1, bm, len(plain)) + body, plain
 
-def build_patch(rng, blocks, block_max=None, pad_fn=None):
+def build_patch(rng, blocks, block_max=None, pad_fn=None, btypes=None):
     """blocks: list of (source size, target size).  returns (patch bytes, base bytes, target plaintext)"""
     base = b""; target = b""; body = b""
     for ss, ds in blocks:
         ref = bytes(rng.choice(b"abcdefghijklmnop") for _ in range(ss))
-        s, d = lzxenc.encode(rng, wbits_patch(ss, ds), ds, delta=True, ref=ref)
+        s, d = lzxenc.encode(rng, wbits_patch(ss, ds), ds, delta=True, ref=ref, btypes=btypes)
         p = bytes(rng.randrange(256) for _ in range(pad_fn(len(s)))) if pad_fn else bytes(rng.choice([0, 0, 3]))
         body += struct.pack("<IIII", len(s) + len(p), ds, ss, regcrc(d)) + s + p
         base += ref; target += d
